@@ -250,7 +250,8 @@ HOSTILE_LEAVES = [
     b'NIL', b'nil', b'""', b'"', b'"\\', b'"\\x"', b'\\', b'(', b')', b'((',
     b'))', b'()', b'[', b']', b'{', b'}', b'{}', b'{a}', b'{-1}',
     b'{99999999999999999999}', b'{0}', b'~{0+}\r\n', b'{0+}\r\n',
-    b'{1+}\r\nx', b'{3+}\r\na\r\n', b'*', b'%', b'1:*', b'*:*', b'0', b'-1',
+    b'{1+}\r\nx', b'{3+}\r\na\r\n', b'{4+}\r\n{3+}', b'{6+}\r\nab{2+}',
+    b'{5+}\r\n{9+}\n', b'*', b'%', b'1:*', b'*:*', b'0', b'-1',
     b'4294967296', b'99999999999999999999999', b'1:', b':1', b'1,,2', b'1,',
     b',', b'$', b'1:2:3', b'\x00', b'a\x00b', b'\r', b'a\rb', b'\t', b' ',
     b'  ', b'BODY[', b'BODY[]<', b'BODY[]<1.0>', b'BODY[]<0.0>',
